@@ -104,6 +104,14 @@ class LinePostProcessor(PostProcessor):
         my_generator.generate_all(False, True, True, [c_style])
     """
 
+    def reset(self) -> None:
+        """
+        Invoked by the generator before the first line of each file. A line post processor that keeps
+        state from one line to the next must return to its initial state here so that the text
+        written for a file does not depend on the files that were generated before it.
+        The default implementation does nothing.
+        """
+
     @abc.abstractmethod
     def __call__(self, line_and_lineend: typing.Tuple[str, str]) -> typing.Tuple[str, str]:
         """
@@ -215,6 +223,9 @@ class LimitEmptyLines(LinePostProcessor):
 
     def __init__(self, max_empty_lines: int):
         self._max_empty_lines = max_empty_lines
+        self._empty_line_count = 0
+
+    def reset(self) -> None:
         self._empty_line_count = 0
 
     def __call__(self, line_and_lineend: typing.Tuple[str, str]) -> typing.Tuple[str, str]:
